@@ -2,6 +2,7 @@
    Statements only; every proof is [exact <lemma>] and is followed by Print Assumptions. *)
 From Coq Require Import ZArith List Bool Lia.
 From ME Require Import Model.Prelude Model.ChordParse Model.ChordCmp Proofs.ChordLattice Proofs.ChordVocab Proofs.ChordSound.
+From ME Require Import Model.RowExp Gen.ChordRules Proofs.ChordRulesTie.
 Import ListNotations.
 Open Scope Z_scope.
 
@@ -79,3 +80,15 @@ Print Assumptions C11_encodings_of_labels_are_well_formed.
 (* non-vacuity: a real chord satisfies enc_ok (C:maj7/3 = root 0, bass 4) *)
 Example C11_enc_ok_inhabited : enc_ok {| root := 0; bm := [1;0;0;0;1;0;0;1;0;0;0;1]; bass := 4 |}.
 Proof. right. unfold bits, nthz. cbn. split; [lia|]. split; [lia|]. split; [|reflexivity]. split; [reflexivity|]. apply Forall_forall. intros x Hx. cbn in Hx. intuition lia. Qed.
+
+(* --- tie by TRANSLATION: Gen/ChordRules.v is regenerated from the bodies of the 12 comparison functions of chord.py on every run
+   (translator/chordrules.py, fail-closed); its row-wise programs, evaluated by Model/RowExp.v, are proved equal to the hand-written
+   rules above for ALL encodings and ALL label pairs, so the lattice theorems speak about what the source says now *)
+Theorem C11_translated_rules_agree_with_model :
+  Forall2 (fun g m => forall r e : cenc, enc_ok r -> enc_ok e -> reval g r e = m r e) gen_rules rules.
+Proof. exact gen_rules_agree. Qed.
+Print Assumptions C11_translated_rules_agree_with_model.
+Theorem C11_translated_rules_agree_on_labels :
+  Forall2 (fun g m => forall r e : str, reval_labels g r e = cmp_labels m r e) gen_rules rules.
+Proof. exact gen_rules_labels_agree. Qed.
+Print Assumptions C11_translated_rules_agree_on_labels.
